@@ -9,7 +9,9 @@ on a freshly built schema ``S`` and compares S2 with a pristine twin ``S0``
   * projection of both on the serialisable attributes the property statement
     lists, leaves typed with ``pvm.fingerprint``                (proj:<locus>)
   * ``text2 == text``                                           (text-2nd-gen-differs)
-  * verdicts of S2 and S0 on probe frames                       (verdict-differs)
+  * verdicts of S2 and S0 on probe frames: accept / set of (reason, column)
+    / number of reported failure cases                         (verdict-differs)
+  * writing the same object twice gives the same text          (write-not-repeatable)
   * the writer must not change S in a serialisable attribute: fingerprint of S
     after the writer == fingerprint of S0, and a YAML text produced *before*
     ``to_script`` must still read back equal to S afterwards
@@ -173,7 +175,16 @@ def verdict(schema, df):
         return ["ok", canon_hash(SN.snap(out.result))]
     if out.kind == "exc":
         return ["exc", type(out.exc).__name__]
-    return [out.kind, sorted({(e.reason, repr(e.column)) for e in out.errors})]
+    # n_failure_cases is a serialised check option whose only effect is the
+    # number of failure cases reported: the report size is part of the verdict
+    n = None
+    if out.kind == "SchemaErrors":
+        try:
+            n = int(len(out.failure_cases))
+        except Exception:
+            n = None
+    return [out.kind, sorted({(e.reason, repr(e.column)) for e in out.errors}),
+            n]
 
 
 def verdict_vector(schema, probes):
@@ -275,6 +286,18 @@ def evaluate(spec, route, probes=None, twin_verdicts=None, want=None):
     r.text = text
     if want is not None and want in r.kinds:
         return r
+    if need("write-not-repeatable"):
+        # to_yaml(S) must be a function of S for "the same text" to mean
+        # anything: writing the same object again gives the same text
+        r.monitors.append("write-repeatable")
+        try:
+            again = _write(route, S)
+            if again != text:
+                r.fail("write-not-repeatable", _first_text_diff(text, again))
+        except Exception as e:
+            r.fail("write-not-repeatable", _exc(e))
+        if want is not None and want in r.kinds:
+            return r
     if y_before is not None:
         r.monitors.append("earlier-yaml-still-equal")
         try:
